@@ -38,6 +38,12 @@ def cases(code):
                                        "dirs3"]))
         pix = "uint8" if layout == "rgb" else draw(
             st.sampled_from(["uint8", "uint16"]))
+        # channels from several directories may have different pixel types
+        pixs = None
+        if layout in ("dirs2", "dirs3") and draw(st.booleans()):
+            pixs = [draw(st.sampled_from(["uint8", "uint16"]))
+                    for _ in range(int(layout[-1]))]
+            pix = "uint16" if "uint16" in pixs else "uint8"
         out = draw(st.sampled_from(TARGETS[pix]))
         block = None
         if out in ("uint32", "uint64") and draw(st.booleans()):
@@ -48,7 +54,7 @@ def cases(code):
             "code": code,
             "n": [draw(st.integers(1, 7)) for _ in range(3)],
             "chunk": [draw(st.integers(1, 4)) for _ in range(3)],
-            "layout": layout, "pix": pix,
+            "layout": layout, "pix": pix, "pixs": pixs,
             "out": out, "block": block,
             "acc": draw(st.sampled_from(["deep_gz", "flat", "deep",
                                          "flat_gz"])),
@@ -71,13 +77,14 @@ def check_case(ctx, case):
     pix = case["pix"]
     d = ctx.tmpdir("slices")
     try:
+        pixs = case.get("pixs") or [pix] * nch
         stack = np.zeros((nch, nsl, nrow, ncol), dtype=pix)
         for c in range(nch):
             for s in range(nsl):
                 for r in range(nrow):
                     for q in range(ncol):
                         stack[c, s, r, q] = stack_value(c, s, r, q,
-                                                        case["seed"], pix)
+                                                        case["seed"], pixs[c])
         dirs = []
         if case["layout"] == "rgb":
             p = os.path.join(d, "in0")
@@ -92,7 +99,7 @@ def check_case(ctx, case):
                 os.makedirs(p)
                 dirs.append(p)
                 for s in range(nsl):
-                    PIL.Image.fromarray(stack[c, s]).save(
+                    PIL.Image.fromarray(stack[c, s].astype(pixs[c])).save(
                         os.path.join(p, "s%03d.png" % s))
         size = orient_ref.output_size(code, ncol, nrow, nsl)
         block = case.get("block")
@@ -214,7 +221,10 @@ def run(ctx, n):
                                   else "forward_slices",
                                   "cli" if case["cli"] else "api",
                                   "enc.cseg" if case.get("block") else
-                                  "enc.raw"])
+                                  "enc.raw",
+                                  "mixed_pixel_types" if case.get("pixs") and
+                                  len(set(case["pixs"])) > 1 else
+                                  "one_pixel_type"])
         ctx.run_hypothesis(cases(code), check, per)
 
 
@@ -222,6 +232,6 @@ def replay(ctx, case):
     check_case(ctx, case)
 
 
-SUBS = [Sub("orient", run, replay, quick=384, thorough=7200, shards=12,
+SUBS = [Sub("orient", run, replay, quick=384, thorough=108000, shards=12,
             sweep=True),
-        Sub("large", run_large, replay, quick=48, thorough=960, shards=8)]
+        Sub("large", run_large, replay, quick=48, thorough=14400, shards=8)]
